@@ -360,7 +360,9 @@ func (e *Engine) WriteReplay(prop string, o *Obligation, outDir string) string {
 
 // CheckCovers: every cover must be satisfiable (sat or unknown); unsat means vacuous assumptions.
 func (e *Engine) CheckCovers(covers []*Obligation, outDir string) string {
-	e.Discharge(covers, filepath.Join(outDir, "covers"), 3, parallelism(8), false)
+	// one incremental solver run per function, 1 s per cover: only an `unsat` answer matters (it means the
+	// assumptions are contradictory); sat / unknown / timeout all mean "not shown vacuous"
+	e.batchDischarge(covers, filepath.Join(outDir, "covers"), parallelism(12), 1000)
 	for _, o := range covers {
 		if o.Status == "unsat" {
 			return o.Name + ": assumptions are contradictory"
